@@ -120,8 +120,14 @@ func e2eSigintComponent(r *hx.Run) {
 			if rng.Intn(2) == 0 {
 				args = append(args, "--exit-delay", []string{"50ms", "1s", "10s"}[rng.Intn(3)])
 			}
-			// one probe every 10-25 ms: hundreds of probes to go when the signal arrives
-			args = append(args, "--rate", fmt.Sprintf("%d/s", 40+rng.Intn(60)))
+			// one probe every 10-25 ms: hundreds of probes to go when the signal arrives; or a rate so slow that the
+			// sender sits in the limiter for a minute or an hour when the signal arrives
+			slow := (it+fi)%3 == 1
+			if slow {
+				args = append(args, "--rate", []string{"1/m", "10/h", "2/30s", "1/90s"}[rng.Intn(4)])
+			} else {
+				args = append(args, "--rate", fmt.Sprintf("%d/s", 40+rng.Intn(60)))
+			}
 			early := (it+fi)%4 == 3
 			if early {
 				s.delay = time.Duration(rng.Intn(40)) * time.Millisecond
@@ -170,7 +176,7 @@ func e2eSigintComponent(r *hx.Run) {
 			if f.kind == "app" {
 				link = "lo"
 			}
-			s.class = strings.Join(f.words, " ") + "/" + link + "/" + map[bool]string{true: "early", false: "mid"}[early] + "/" + map[bool]string{true: "json", false: "text"}[asJSON]
+			s.class = strings.Join(f.words, " ") + "/" + link + "/" + map[bool]string{true: "early", false: "mid"}[early] + "/" + map[bool]string{true: "json", false: "text"}[asJSON] + map[bool]string{true: "/slowrate", false: ""}[slow]
 			runs = append(runs, s)
 		}
 	}
